@@ -36,7 +36,8 @@ TIME = {'quick': 70, 'thorough': 540}
 MIN_NONTRIVIAL = {'quick': 1000, 'thorough': 8000}
 REQUIRED = ('refunds', 'side_pots', 'odd_chip_remainders', 'rake_taken',
             'terminal_states_checked', 'short_forced_bets',
-            'trees_completed', 'explored_nodes')
+            'trees_completed', 'explored_nodes',
+            'forks')
 
 CUSTOMS = ('kuhn', 'draw5', 'stud5', 'greek', 'courchevel', 'holdem8',
            'plo8', 'badugi1', 'razzdraw', 'random')
@@ -183,6 +184,8 @@ def gen_kwargs(rng):
 
 
 def pol_tweak(pol, cfg, rng):
+    if rng.random() < 0.4:
+        pol['fork_p'] = 0.03     # continue on a deepcopy mid-hand
     if rng.random() < 0.04:
         pol['muck'] = 'any'
         pol['muck_p'] = rng.choice([0.1, 0.6, 0.9])
